@@ -1,6 +1,7 @@
 package main
 
 import (
+	"fmt"
 	"path"
 
 	"verifharness/internal/rng"
@@ -71,6 +72,20 @@ func generate(r *rng.R) *caseInput {
 		}
 	}
 	in.New = e.p
+	// one case in forty reports exactly 256 or 512 diagnostics and nothing else (an exit status is
+	// eight bits wide): that many required fields are added to one struct of the unedited program
+	if r.Chance(1, 40) {
+		e2 := &editor{g: g, p: old.clone()}
+		if t, ok := e2.pickDef(isStructOrEx); ok {
+			n := 256 * (1 + r.Intn(2))
+			for i := 0; i < n; i++ {
+				e2.insertField(t.d, &Field{ID: maxID(t.d) + 1, Name: g.fresh("wide"), Req: 2, Type: g.genType(e2.p, t.f, 0, true)})
+			}
+			in.Kinds = []string{"addRequiredField×" + fmt.Sprint(n)}
+			in.New = e2.p
+			return in
+		}
+	}
 	// sometimes the same file is kept twice (two API versions side by side) and edited identically:
 	// the diagnostics of the two copies then differ in nothing but the file they are attributed to
 	if r.Chance(1, 8) {
